@@ -201,20 +201,19 @@ theorem stmt_roundtrip (fmt : Bool) (l ind depth f : Nat) (s : Stmt) (rest : Byt
     ∃ ind', parseStmt f (kwOf s) ind depth (afterKw fmt l s rest) = .ok (s, ind', depth, 10 :: rest) :=
   pstmt_all s fmt l ind depth f rest hwf hh hf
 
-/-- AUDIT: the statement-tree theorems say nothing about a statement whose keyword is `type-x:y` (an extension instance
-    with the legal prefix `type-x`), whatever its argument, children and siblings: it is never well-formed, because
-    `get_keyword` does not lex `type-x:y` as itself (it stops with "expected a keyword followed by a separator"). -/
-theorem stmt_tree_roundtrip_vacuous_for_keywordlike_prefix (arg : Option Bytes) (flags : Nat) (kids ss : List Stmt) :
-    ¬ WfStmts (.mk [116, 121, 112, 101, 45, 120, 58, 121] arg flags kids :: ss) := by
-  intro h
-  obtain ⟨tok, ind', _, e⟩ := h.1.1.lex 0 0 32 [] (Or.inl rfl)
-  have : kwAt 0 0 ([116, 121, 112, 101, 45, 120, 58, 121] ++ 32 :: []) = .error .inStrExp := by rfl
-  rw [this] at e
-  cases e
+/-- AUDIT (resolved): before the `fix:` for F105 a statement whose keyword is `type-x:y` (an extension instance with the legal
+    prefix `type-x`, which starts with a statement keyword) was never well-formed, because `get_keyword` stopped with "expected a
+    keyword followed by a separator"; the statement-tree theorems were vacuous for such prefixes and the printed statement did
+    not re-parse.  The lexer (and this model of it) now goes on scanning the identifier: -/
+example : ∃ k, kwAt 0 0 ([116, 121, 112, 101, 45, 120, 58, 121] ++ [32]) = .ok k ∧ k.tok = Tok.ext ∧
+    k.word = [116, 121, 112, 101, 45, 120, 58, 121] := ⟨_, rfl, rfl, rfl⟩
 
-/-- … and the round trip does fail there: the lexer rejects the printed statement `type-x:y "a";` -/
-example : getKeyword 0 1 (printStmt true 0 (.mk [116, 121, 112, 101, 45, 120, 58, 121] (some [97]) LYS_DOUBLEQUOTED [])) =
-    .error .inStrExp := by rfl
+/-- … and the printed statement `type-x:y "a";` is lexed as an extension instance again -/
+example : ∃ k, getKeyword 0 1 (printStmt true 0 (.mk [116, 121, 112, 101, 45, 120, 58, 121] (some [97]) LYS_DOUBLEQUOTED [])) = .ok k ∧
+    k.tok = Tok.ext := ⟨_, rfl, rfl⟩
+
+/-- a word that starts with a keyword and has no colon is still refused -/
+example : kwAt 0 0 ([116, 121, 112, 101, 45, 120] ++ [32]) = .error .inStrExp := rfl
 
 /-! non-vacuity: `e:x "a<LF>b" { type string; e:x; units 'it''s'; }` -/
 
